@@ -87,6 +87,40 @@ def tie_at_trigger(hist):
     return False
 
 
+def trigger_tie(hist):
+    """two different closing triggers of one scheduler in the same instant:
+    then even the verdict depends on the order of the instant"""
+    for sid in hist.sched_ids():
+        sr = hist.sr(sid)
+        if sr.begin is None:
+            continue
+        times = []
+        if sr.exp_t not in (None, INF):
+            times.append(('exp', sr.exp_t, None))
+        if sr.crit is not None:
+            times.append(('crit', sr.crit[1], sr.crit[2]))
+        if sr.fin is not None and not sr.degenerate:
+            last = [mh.nid for mh in sr.finite
+                    if mh.finished() and mh.finished()[1] == sr.fin[1]]
+            times.append(('fin', sr.fin[1], last))
+        for i, (ka, ta, wa) in enumerate(times):
+            for kb, tb, wb in times[i + 1:]:
+                if ta != tb:
+                    continue
+                if {ka, kb} == {'crit', 'fin'}:
+                    who = wa if ka == 'crit' else wb
+                    last = wb if ka == 'crit' else wa
+                    if last == [who]:
+                        continue        # one and the same event
+                return True
+        # a second critical raise in the instant of the first
+        crit_times = [t for mh in sr.mh if mh.spec['critical']
+                      for _, t, k in mh.exits if k == 'exc']
+        if len(crit_times) != len(set(crit_times)):
+            return True
+    return False
+
+
 def contention(hist):
     """did demand ever exceed capacity in a windowed scheduler (so that who
     gets a slot is a scheduling decision)"""
@@ -159,13 +193,22 @@ def c06_candidates(top):
 def c06(case, stats):
     top, knobs = case['spec'], twin_knobs(case['knobs'])
     switch = case['aux'].get('switch')
+    how = case['aux'].get('switch_kind', 'outcome')
     nodes, _ = S.index(top)
     if switch not in nodes or S.is_sched(nodes[switch]) \
-            or nodes[switch]['critical'] or nodes[switch]['outcome'] != 'ret':
+            or nodes[switch]['critical']:
         return [], None, None
     top_b = S.clone(top)
     nodes_b, _ = S.index(top_b)
-    nodes_b[switch]['outcome'] = 'exc'
+    if how == 'cleanup':
+        # raises from its cancellation handler instead of ending cancelled
+        if nodes[switch].get('cleanup_outcome') == 'exc':
+            return [], None, None
+        nodes_b[switch]['cleanup_outcome'] = 'exc'
+    else:
+        if nodes[switch]['outcome'] != 'ret':
+            return [], None, None
+        nodes_b[switch]['outcome'] = 'exc'
     run_a = run_spec(top, knobs, case.get('choices'))
     run_b = run_spec(top_b, knobs, case.get('choices'))
     for run in (run_a, run_b):
@@ -189,9 +232,21 @@ def c06(case, stats):
             .format(switch, run_b.outcome, run_b.value)))
         return out, run_a, run_b
     if tie_at_trigger(hist_a) or tie_at_trigger(hist_b):
-        stats['skipped_tie_at_trigger'] = \
-            stats.get('skipped_tie_at_trigger', 0) + 1
-        return [], run_a, run_b
+        # what starts or ends in a closing instant is order dependent; the
+        # verdicts are not, unless two triggers themselves coincide
+        if trigger_tie(hist_a) or trigger_tie(hist_b):
+            stats['skipped_tie_at_trigger'] = \
+                stats.get('skipped_tie_at_trigger', 0) + 1
+            return [], run_a, run_b
+        stats['judged_verdicts_only'] = \
+            stats.get('judged_verdicts_only', 0) + 1
+        va, vb = verdicts(hist_a, False), verdicts(hist_b, False)
+        if va != vb:
+            out.append(Violation(
+                'C06', 'verdict-affected', site + '-tie',
+                "verdicts {} when {} returns but {} when it raises".format(
+                    va, switch, vb)))
+        return out, run_a, run_b
     contended = contention(hist_a) or contention(hist_b)
     if contended:
         timed = _has(top, lambda n: S.is_sched(n) and n['timeout'] is not None)
@@ -248,7 +303,7 @@ def c06(case, stats):
                 "{} after the run: done/exception {} vs {}".format(
                     nid, (tup_a[3], tup_a[4]), (tup_b[3], tup_b[4]))))
     hb = hist_b.nodes[switch]
-    if hb.finished() is not None:
+    if how == 'outcome' and hb.finished() is not None:
         tup = run_b.post.get(switch)
         want = run_b.ctx.objs.get(switch, {}).get('exc')
         if tup is not None and tup[0] != 'error' and (
